@@ -123,7 +123,7 @@ impl Check for C05 {
     fn total_cases(&self, tier: Tier) -> u64 {
         match tier {
             Tier::Quick => 200_000,
-            Tier::Thorough => 4_000_000,
+            Tier::Thorough => 12_000_000,
         }
     }
     fn strategy(&self, _tier: Tier) -> BoxedStrategy<MCase> {
